@@ -9,11 +9,13 @@ import (
 	"fmt"
 	"reflect"
 	"regexp"
+	"runtime"
 	"strings"
 	"sync"
 	"sync/atomic"
 	"testing"
 	"unicode/utf8"
+	"unsafe"
 
 	"github.com/cosmos/cosmos-proto/internal/testprotos/test3"
 	"github.com/cosmos/cosmos-proto/internal/zzverif/enum"
@@ -68,6 +70,8 @@ func optionSets() []optSet {
 		{name: "DisallowNilMessages", opts: rapidproto.GeneratorOptions{}.WithDisallowNil(), disallowNil: true},
 		{name: "NoEmptyLists+DisallowNilMessages", opts: rapidproto.GeneratorOptions{NoEmptyLists: true, DisallowNilMessages: true}, noEmptyLists: true, disallowNil: true},
 		{name: "AnyTypes(B,Leaf)", opts: withAny, anyTypes: true},
+		// no recursive payload type and every string pinned: several NON-EMPTY Any payloads fit in the horizon on the small constant streams
+		{name: "AnyTypes(B)+FieldMaps(pin strings)", opts: rapidproto.GeneratorOptions{Resolver: protoregistry.GlobalTypes, FieldMaps: []rapidproto.FieldMapper{pin}}.WithAnyTypes(&testpb.B{}), anyTypes: true, pinned: true},
 		{name: "AnyTypes+InterfaceHint", opts: withAny.WithInterfaceHint("verif.Iface", &testpb.B{}), anyTypes: true},
 		{name: "FieldMaps(pin strings)", opts: rapidproto.GeneratorOptions{FieldMaps: []rapidproto.FieldMapper{pin}}, pinned: true},
 	}
@@ -298,6 +302,7 @@ func targets() []target {
 		{"google.protobuf.Any", gen(&anypb.Any{})},
 		{"mx.One", gen(mk("mx.One"))},
 		{"mx.ChainL", gen(mk("mx.ChainL"))},
+		{"mx.Anys", gen(mk("mx.Anys"))},
 	}
 }
 
@@ -309,11 +314,9 @@ const (
 	generatorFailed
 )
 
-// runOne feeds one explicit word stream to the generator inside a subtest.
-func runOne(t *testing.T, h *hz.H, tg target, os optSet, c c18case, stream []byte) outcome {
-	var res outcome = generatorFailed
-	var failure string
-	var msg proto.Message
+// generate feeds one explicit word stream to the generator inside a subtest.
+func generate(t *testing.T, tg target, os optSet, stream []byte) (res outcome, failure string, msg proto.Message) {
+	res = generatorFailed
 	draw := tg.run(os)
 	t.Run("s", func(st *testing.T) {
 		defer func() {
@@ -336,6 +339,49 @@ func runOne(t *testing.T, h *hz.H, tg target, os optSet, c c18case, stream []byt
 		})(st, stream)
 		res = completed
 	})
+	return
+}
+
+// byteSlices collects every non-empty bytes datum reachable in m (Any payloads included) with its memory range.
+func byteSlices(m protoreflect.Message, path string, out *[]memRange) {
+	m.Range(func(fd protoreflect.FieldDescriptor, v protoreflect.Value) bool {
+		p := path + "." + string(fd.Name())
+		one := func(k protoreflect.Kind, v protoreflect.Value, p string) {
+			switch k {
+			case protoreflect.BytesKind:
+				if b := v.Bytes(); len(b) > 0 {
+					a := uintptr(unsafe.Pointer(&b[0]))
+					*out = append(*out, memRange{p, a, a + uintptr(len(b))})
+				}
+			case protoreflect.MessageKind, protoreflect.GroupKind:
+				byteSlices(v.Message(), p, out)
+			}
+		}
+		switch {
+		case fd.IsList():
+			for i := 0; i < v.List().Len(); i++ {
+				one(fd.Kind(), v.List().Get(i), fmt.Sprintf("%s[%d]", p, i))
+			}
+		case fd.IsMap():
+			v.Map().Range(func(k protoreflect.MapKey, mv protoreflect.Value) bool {
+				one(fd.MapValue().Kind(), mv, fmt.Sprintf("%s[%v]", p, k.Interface()))
+				return true
+			})
+		default:
+			one(fd.Kind(), v, p)
+		}
+		return true
+	})
+}
+
+type memRange struct {
+	path   string
+	lo, hi uintptr
+}
+
+// runOne runs the generator on one word stream and validates what it yields.
+func runOne(t *testing.T, h *hz.H, tg target, os optSet, c c18case, stream []byte) outcome {
+	res, failure, msg := generate(t, tg, os, stream)
 	key := func(o string) string { return fmt.Sprintf("C18/%s/%s/options=%s", o, tg.name, os.name) }
 	switch res {
 	case beyondHorizon:
@@ -386,11 +432,43 @@ func runOne(t *testing.T, h *hz.H, tg target, os optSet, c c18case, stream []byt
 		}
 		h.ViolateMin(key("invalid:"+strings.TrimSpace(cls)), fmt.Sprintf("%s generated with options %s from stream %s%v: %s", tg.name, os.name, c.Base, devDesc(c), problem), c, len(c.Pos))
 	}
+	// the yielded message owns its memory: no two bytes data in it overlap, and a later run of the generator
+	// (same goroutine, another stream) leaves it as it was
+	var rs []memRange
+	byteSlices(msg.ProtoReflect(), "", &rs)
+	for i := range rs {
+		for j := i + 1; j < len(rs); j++ {
+			if rs[i].lo < rs[j].hi && rs[j].lo < rs[i].hi {
+				h.ViolateMin(key("invalid:bytes-share-memory"), fmt.Sprintf("%s generated with options %s from stream %s%v: the bytes data at %s and %s occupy overlapping memory", tg.name, os.name, c.Base, devDesc(c), rs[i].path, rs[j].path), c, len(c.Pos))
+				return res
+			}
+		}
+	}
+	if len(rs) > 0 && (len(c.Pos) == 0 || c.Pos[0]%4 == 0) {
+		before, _ := proto.MarshalOptions{Deterministic: true}.Marshal(msg)
+		// later runs on each base stream (payloads of other sizes and contents), then on the same stream again
+		for _, bn := range baseOrder {
+			generate(t, tg, os, mkStream(bases[bn], c.Horizon, nil, nil))
+		}
+		generate(t, tg, os, stream)
+		after, _ := proto.MarshalOptions{Deterministic: true}.Marshal(msg)
+		if string(before) != string(after) {
+			h.ViolateMin(key("invalid:changed-by-a-later-run"), fmt.Sprintf("%s generated with options %s from stream %s%v changed when the generator was run again afterwards (on the four base streams): %x -> %x", tg.name, os.name, c.Base, devDesc(c), clipB(before), clipB(after)), c, len(c.Pos))
+			return res
+		}
+	}
 	h.Eval(true, hz.HashBytes([]byte(tg.name), []byte(os.name), enc))
 	if h.WantSample() && len(enc) > 4 && len(c.Pos) == 1 {
 		h.Sample(map[string]interface{}{"type": tg.name, "options": os.name, "base_stream": c.Base, "deviating_positions": c.Pos, "deviating_words": c.Words, "generated_message_encoding_len": len(enc)})
 	}
 	return res
+}
+
+func clipB(b []byte) []byte {
+	if len(b) > 80 {
+		return b[:80]
+	}
+	return b
 }
 
 func devDesc(c c18case) string {
@@ -421,6 +499,9 @@ func TestC18(t *testing.T) {
 	tgs := targets()
 	oss := optionSets()
 	if h.Replay != "" {
+		// one P: state a generator keeps per P (sync.Pool private slots) is then reached by every subtest goroutine,
+		// so a replay does not depend on which P a goroutine lands on
+		runtime.GOMAXPROCS(1)
 		var c c18case
 		h.LoadReplay(&c)
 		for _, tg := range tgs {
